@@ -16,7 +16,11 @@
     module file and to_code:
       identity uniqueness, context per position, compile, parse(unparse(t)) == t,
       to_code(f) == text of the function in the module file that was loaded, code object of the
-      running function == code object compiled from that file.
+      running function == code object compiled from that file;
+      the text load_ast hands to load_source (recorded by the monitor, also when load_ast raises
+      afterwards) re-parses to the nodes handed to load_ast: nothing between unparse and the module
+      file may change what the text denotes (docstrings are written raw by ast.unparse, so line-end
+      blanks, tabs and whitespace-only lines inside them are significant).
 """
 import ast
 import copy
@@ -91,6 +95,15 @@ HAND = [
     ('doc_flush', 'def f(a, b, c):\n    """Table:\n\nx > 0   -> 2 * x\nx <= 0  -> x\n \\ttab and \\\\ backslash, \'quote\', "dq"\n"""\n    if a > 0:\n        return 2 * a\n    return a\n'),
     ('doc_nested', 'def f(a, b, c):\n    """Outer\n  shallow (2)\n            deep (12)\n    """\n    def g(x):\n        """Inner helper.\n\n      six columns\nflush left\n        """\n        if x:\n            return 1\n        return 2\n    class K:\n        def m(self):\n            """Method doc.\n  two\n            """\n            return 1\n    return g(a), K\n'),
     ('doc_deep', 'def make():\n    if True:\n        def f(a, b, c):\n            """Defined 8 columns deep.\n\n            twelve\n        eight\n            """\n            if a:\n                b = c\n            return b\n        return f\nf = make()\n'),
+    # text-level significance: ast.unparse writes docstrings RAW (newlines and tabs unescaped), so what stands at
+    # the end of a docstring line / on a whitespace-only line / at its first and last line is part of the tree's value
+    # and has to survive unparse -> module file -> re-parse (source map) -> __doc__ unchanged
+    ('doc_trail_blanks', 'def f(a, b, c):\n    """Scale a.  \n\n    Returns twice a. \n    """\n    if a > 0:\n        a = a * 2\n    return a\n'),
+    ('doc_ws_only_lines', 'def f(a, b, c):\n    """Table:\n    \n      x | y\n  \n\t\n        \n    end"""\n    for i in b:\n        a = a + i\n    return a\n'),
+    ('doc_tabs', 'def f(a, b, c):\n    def g(x):\n        """Helper.\t\n\tcolumn\tseparated\t\n        more \t """\n        if x:\n            return x + 1\n        return x\n    return g(a)\n'),
+    ('doc_escaped_ws', 'def f(a, b, c):\n    "single  \\n \\t  \\n\\n end \\t"\n    while a:\n        a -= 1\n    return a\n'),
+    ('doc_edges', 'def f(a, b, c):\n    """   \n   starts and ends with blank lines  \n\n   \n"""\n    class K:\n        def m(self, q):\n            \'\'\' method doc \n            \n            with "double" quotes\t\'\'\'\n            if q:\n                return 1\n            return 2\n    return K().m(a)\n'),
+    ('doc_unicode', 'def f(a, b, c):\n    """R\u00e9sum\u00e9 \u2264 \u65e5\u672c\u8a9e \U0001f600 nbsp:\u00a0\n    \u00a0\n    ideographic space:\u3000\n    form feed:\x0c vt:\x0b sep:\\u2028 \\x85 nul:\\x00\n    """\n    s = "\u00e9  \\n \\t\\n" + """multi  \n  \n\tline\t\n"""\n    if a:\n        s = f"""{a}  \n\t{b} \n """\n    return s\n'),
     # entities whose function object carries attributes that steer `inspect` (functools.wraps /
     # update_wrapper set __wrapped__; __signature__; plain attributes): to_code must still show the loaded module
     ('ent_wraps', 'import functools\n\ndef logged(g):\n    @functools.wraps(g)\n    def wrapper(*args, **kwargs):\n        """Wrapper doc."""\n        if args:\n            return g(*args, **kwargs)\n        return None\n    return wrapper\n\n@logged\ndef f(a, b, c):\n    """User doc."""\n    if a:\n        return b\n    return c\n'),
@@ -117,6 +130,95 @@ WALRUS = [
     ('w_ret_list', 'def f(a, b, c):\n    for x in a:\n        if x:\n            return [(k := x), k]\n    return b\n'),
     ('w_star', 'def f(a, b, c):\n    return (*(q := a), q)\n'),
 ]
+
+
+# random docstrings whose value depends on text-level detail (what ast.unparse writes raw): blanks / tabs at the
+# end of a line, whitespace-only lines, blank first / last lines, quotes, non-ASCII, escapes.  A backslash directly
+# before a line end is left out (inside a string it is C15's known finding c15-unfold-in-string, not C17).
+DOC_LINES = ['Summary.', 'Args:', '  a: a number', 'x | y', '>>> f(1, 2, 3)', '# not a comment', 'it\'s "quoted"', 'col\tcol',
+             'def g(): pass', 'return a', 'two "" quotes', 'r\u00e9sum\u00e9 \u2264 \u65e5\u672c', ':param a: \\d \\ x', 'ends with quote"', "''",
+             '\\x00 \\u2028 \\N{BULLET}', '# coding=latin-1', 'a' * 90, '-' * 3, '\\\\', '{a} {{b}}', '%s %(k)d']
+DOC_TRAIL = ['', '', '', ' ', '  ', '\t', ' \t', '\t ', '    ', '\x0c']
+DOC_BODIES = [
+    ['if a > 0:', '@a = a * 2', 'return a'],
+    ['while a:', '@a -= 1', '@if a == b:', '@@break', 'return a, b'],
+    ['for i in b:', '@if i:', '@@continue', '@c = c + i', 'return c'],
+    ['x = a if b else c', 'return [x, *b]'],
+    ['return a'],
+]
+
+
+def _rand_doc(rnd, ind, q):
+    """text of a docstring literal (delimiter q) standing at indentation `ind`; None if it would not be a valid literal"""
+    n = rnd.choice([1, 2, 3, 3, 4, 6])
+    lines = []
+    for i in range(n):
+        k = rnd.random()
+        if k < 0.25 and i > 0:
+            body = rnd.choice(['', ind, ind + '  ', ' ', '\t', ind[:-1]])       # whitespace-only line
+        else:
+            lead = '' if i == 0 else rnd.choice([ind, ind, ind + '  ', '', '\t', ind[:len(ind) // 2]])
+            content = rnd.choice(DOC_LINES)
+            if len(q) == 1:
+                content = content.replace(q, '\\' + q)      # (lone quotes are fine inside a triple-quoted literal)
+            body = lead + content + rnd.choice(DOC_TRAIL)
+        lines.append(body)
+    if rnd.random() < 0.3:
+        lines.insert(0, rnd.choice(['', ' ', '   ']))
+    if rnd.random() < 0.4:
+        lines.append(rnd.choice(['', ind, ind + ' ', '\t']))
+    if len(q) == 1:
+        text = '\\n'.join(l.replace('\t', '\\t').replace('\x0c', '\\f') for l in lines)
+    else:
+        text = '\n'.join(lines)
+    if text.endswith(q[0]) or text.endswith('\\') and not text.endswith('\\\\'):
+        text += ' '
+    lit = q + text + q
+    try:
+        v = ast.literal_eval(lit)
+    except (SyntaxError, ValueError):
+        return None
+    if not isinstance(v, str) or '\\\n' in lit:
+        return None
+    return lit
+
+
+def doc_stream(rnd, n):
+    out = []
+    tries = 0
+    while len(out) < n and tries < n * 8:
+        tries += 1
+        unit = rnd.choice(['  ', '    ', '    ', '        '])
+        where = rnd.choice(['top', 'top', 'nested', 'method', 'both'])
+        body = [l.replace('@', unit) for l in rnd.choice(DOC_BODIES)]
+
+        def doc(level):
+            return _rand_doc(rnd, unit * level, rnd.choice(['"""', '"""', "'''", '"', "'"]))
+        lines = ['def f(a, b, c):']
+        docs = []
+        if where in ('top', 'both'):
+            docs.append(doc(1))
+            lines.append(unit + '%s')
+        if where in ('nested', 'both'):
+            docs.append(doc(2))
+            lines += [unit + 'def g(a, b, c):', unit * 2 + '%s'] + [unit * 2 + l for l in body]
+            body = ['return g(a, b, c)']
+        elif where == 'method':
+            docs.append(doc(3))
+            lines += [unit + 'class K:', unit * 2 + 'def m(self, a, b, c):', unit * 3 + '%s'] + [unit * 3 + l for l in body]
+            body = ['return K().m(a, b, c)']
+        lines += [unit + l for l in body]
+        if any(d is None for d in docs):
+            continue
+        src = '\n'.join(lines).replace('%s', '\0') + '\n'
+        for d in docs:
+            src = src.replace('\0', d, 1)
+        try:
+            compile(src, '<c17-doc>', 'exec')
+        except (SyntaxError, ValueError):
+            continue
+        out.append(src)
+    return out
 
 
 def gen_programs(rnd, tier):
@@ -207,6 +309,10 @@ def gen_programs(rnd, tier):
                            '{1: (%s := %s)}[1] + %s', '(lambda: 0)() + (%s := %s) + %s'])
         st = rnd.choice(['return %s', 'x = %s\n    return x', 'if %s:\n        return 1\n    return 2'])
         out.append(('walrus:rnd%d' % i, 'def f(a, b, c):\n    ' + st % (wrap % (v, inner, v)) + '\n'))
+    # random docstrings with text-level detail (own generator state: the other streams keep their programs)
+    drnd = random.Random(rnd.random())
+    for i, src in enumerate(doc_stream(drnd, 12 if tier == 'quick' else 80)):
+        out.append(('gen:doc:%d' % i, src))
     return out
 
 
@@ -505,6 +611,8 @@ class Monitor(object):
         self.orig_replace = templates.replace
         self.orig_parse = parser.parse
         self.orig_load_ast = loader.load_ast
+        self.orig_load_source = loader.load_source
+        self.cur_load = None
         mon = self
 
         def replace(template, **replacements):
@@ -555,22 +663,34 @@ class Monitor(object):
             return nodes
 
         def load_ast(nodes, indentation='  ', include_source_map=False, delete_on_exit=True):
-            rec = {'nodes': nodes, 'module': None, 'source': None}
+            rec = {'nodes': nodes, 'module': None, 'source': None, 'written': None}
             if mon.enabled:
                 mon.loads.append(rec)
-            res = mon.orig_load_ast(nodes, indentation=indentation, include_source_map=include_source_map,
-                                    delete_on_exit=delete_on_exit)
+            outer, mon.cur_load = mon.cur_load, rec
+            try:
+                res = mon.orig_load_ast(nodes, indentation=indentation, include_source_map=include_source_map,
+                                        delete_on_exit=delete_on_exit)
+            finally:
+                mon.cur_load = outer
             rec['module'], rec['source'] = res[0], res[1]
             return res
+
+        def load_source(source, *args, **kwargs):
+            # the text load_ast really writes to the module file (known also when load_ast raises later on)
+            if mon.cur_load is not None and mon.cur_load['written'] is None:
+                mon.cur_load['written'] = source
+            return mon.orig_load_source(source, *args, **kwargs)
 
         templates.replace = replace
         parser.parse = parse
         loader.load_ast = load_ast
+        loader.load_source = load_source
 
     def uninstall(self):
         self.templates.replace = self.orig_replace
         self.parser.parse = self.orig_parse
         self.loader.load_ast = self.orig_load_ast
+        self.loader.load_source = self.orig_load_source
 
 
 def export_repls(conv, ids, tpl_nodes=None):
@@ -704,7 +824,7 @@ def generate():
 
 def _load_module(src, name, tmpdir):
     p = os.path.join(tmpdir, name + '.py')
-    with open(p, 'w') as f:
+    with open(p, 'w', encoding='utf-8') as f:
         f.write(src)
     spec = importlib.util.spec_from_file_location(name, p)
     m = importlib.util.module_from_spec(spec)
@@ -793,6 +913,10 @@ def run_pipeline(run, programs, tmpdir, mon):
                         for n in nodes:
                             for what, detail in tree_checks(n, parser):
                                 local.append((what + ' (nodes handed to load_ast)', detail))
+                    if not local and ld.get('written') is not None:
+                        # ... and the text the loader really wrote (whatever it did to the unparsed text on the
+                        # way) must still denote those nodes: it is what gets imported and what to_code shows
+                        local += written_text_checks(nodes, ld['written'])
                 if err is not None:
                     stats['load_failed'] += 1
                     local.append(('conversion failed after transform_ast returned (tree / printed form inconsistent)',
@@ -813,6 +937,20 @@ def run_pipeline(run, programs, tmpdir, mon):
         api._TRANSPILER = orig_transpiler
     run.extra['pipeline'] = stats
     return failures
+
+
+def written_text_checks(nodes, written):
+    """the text handed to load_source, re-parsed by CPython, against the nodes handed to load_ast"""
+    try:
+        back = ast.parse(written).body
+    except (SyntaxError, ValueError) as e:
+        return [('text written by the loader for the module does not parse', '%s: %s' % (type(e).__name__, e))]
+    want = '[%s]' % ', '.join(cdump(n) for n in nodes)
+    got = '[%s]' % ', '.join(cdump(b) for b in back)
+    if want != got:
+        return [('text written by the loader for the module does not denote the tree handed to load_ast',
+                 _first_diff(want, got))]
+    return []
 
 
 def fmt_feats(feats):
@@ -1038,8 +1176,11 @@ def eval_shard(args):
 def check(run):
     run.rule = ('programs: %d hand-written functions with the unusual literals of the property (negative numbers, nested '
                 'f-strings, bytes, complex, tuple/slice subscripts, starred, chained comparisons, lambda defaults, '
-                'decorators, comprehensions, control flow), walrus shapes, seeded random functions of tools/gen/progs.py '
-                '(5 option streams) x option sets (recursive x optional features); distinct non-trivial = distinct '
+                'decorators, comprehensions, control flow; docstrings / strings whose value depends on text-level detail: '
+                'blanks and tabs at line ends, whitespace-only lines, blank first/last lines, quotes, non-ASCII), walrus '
+                'shapes, seeded random functions of tools/gen/progs.py (5 option streams), random chained comparisons, '
+                'composite state variables and random text-sensitive docstrings (top level / nested def / method) '
+                'x option sets (recursive x optional features); distinct non-trivial = distinct '
                 'transformed trees (ast.dump); correspondence: every templates.replace call made by those conversions '
                 '(recorded with object identities) + synthetic template/adjuster/copy cases + CPython-validator cases' % len(HAND))
     tmpdir = vlib.ensure_dir(os.path.join(vlib.BUILD, 'tmp', 'c17-%d' % os.getpid()))
@@ -1269,16 +1410,34 @@ def replay(path):
                 return res
         api._TRANSPILER = Capture()
         feats = eval(rep.get('optional_features') or 'None', {'Feature': converter.Feature})
+        recursive = bool(rep.get('recursive', True))
+        mon = Monitor()
+        mon.install()
         try:
-            api.to_graph(m.f, recursive=bool(rep.get('recursive', True)), experimental_optional_features=feats)
-            print('to_graph: ok')
-        except Exception as e:   # noqa
-            print('to_graph raised %s: %s' % (type(e).__name__, e))
-        bad = 0
-        for root in captured[:1]:
-            for what, detail in tree_checks(root, parser):
-                print('FAIL: %s -- %s' % (what, detail))
-                bad += 1
-        return 1 if bad else 0
+            conv, err = None, None
+            try:
+                conv = api.to_graph(m.f, recursive=recursive, experimental_optional_features=feats)
+                print('to_graph: ok')
+            except Exception as e:   # noqa
+                err = e
+                print('to_graph raised %s: %s' % (type(e).__name__, e))
+            fails = []
+            for root in captured[:1]:
+                fails += tree_checks(root, parser)
+                for ld in mon.loads:
+                    nodes = ld['nodes'] if isinstance(ld['nodes'], (list, tuple)) else [ld['nodes']]
+                    if not fails and ld.get('written') is not None:
+                        fails += written_text_checks(nodes, ld['written'])
+                if err is not None:
+                    fails.append(('conversion failed after transform_ast returned (tree / printed form inconsistent)',
+                                  '%s: %s' % (type(err).__name__, str(err)[:300])))
+                else:
+                    fails += loaded_checks(api, m.f, conv, root, recursive, feats, mon)
+        finally:
+            mon.uninstall()
+        for what, detail in fails:
+            print('FAIL: %s -- %s' % (what, detail))
+        return 1 if fails else 0
     finally:
+        tempfile.tempdir = None
         shutil.rmtree(tmpdir, ignore_errors=True)
